@@ -42,6 +42,7 @@ type wParams struct {
 	Columns   int    `json:"columns,omitempty"`
 
 	Stop      *wStop       `json:"stop,omitempty"`   // user stop pinned to a scheduling point
+	Stops     []wStop      `json:"stops,omitempty"`  // further stop events (e.g. the server interrupted while the client's menu is open)
 	Pauses    []wPause     `json:"pauses,omitempty"` // pause/resume cycles on the client
 	Mitm      *wMitm       `json:"mitm,omitempty"`   // field-aware substitution in one protocol line
 	MsgFaults []wMsgFault  `json:"msgfaults,omitempty"`
@@ -57,6 +58,8 @@ type wParams struct {
 	HashStep       int64 `json:"hash_step,omitempty"` // >0: the prefix-hash block for this run (rule R11), default the real 10 MiB
 
 	DstRoot string `json:"dstroot,omitempty"` // use (and keep) this destination directory instead of a fresh one
+	// DstNested: the destination is <scratch>/nest/2024/incoming, three otherwise empty levels
+	DstNested bool `json:"dstnested,omitempty"`
 
 	Kind string    `json:"kind,omitempty"` // "", "refuse", "badpath" (see applyKind)
 	Then []wParams `json:"then,omitempty"` // follow-up transfers through the same world (only Dir, Tree, Directory, Overwrite, Kind, Local, Stop are used)
@@ -72,6 +75,14 @@ type wStop struct {
 	Side   string `json:"side"` // client | server
 	Delete bool   `json:"delete,omitempty"`
 	Step   int    `json:"step"`
+	// AtMs > 0: delivered that long (virtual) after the transfer began instead of before scheduler step Step.
+	AtMs int `json:"at_ms,omitempty"`
+	// Via "keys" (client only): the user types Ctrl-C — the product pauses the transfer and opens its
+	// stop/continue menu (rule R14 models the menu library) — and answers ChoiceMs (default 300) later:
+	// keep / delete / continue. With a server older than 1.1.4 the Ctrl-C stops at once, as the product does.
+	Via      string `json:"via,omitempty"`
+	ChoiceMs int    `json:"choice_ms,omitempty"`
+	Continue bool   `json:"continue,omitempty"`
 }
 
 // wPause pauses the client's transfer just before scheduler step Step and resumes it ForMs of
@@ -79,6 +90,8 @@ type wStop struct {
 type wPause struct {
 	Step  int `json:"step"`
 	ForMs int `json:"for_ms"`
+	// AtMs > 0: the pause begins that long (virtual) after the transfer started instead of before step Step.
+	AtMs int `json:"at_ms,omitempty"`
 	// AgainAfterMs > 0: a second pause of the same length begins that long after the first one ended.
 	AgainAfterMs int `json:"again_after_ms,omitempty"`
 }
@@ -472,19 +485,20 @@ func snapDiff(want, got map[string]string) string {
 // ---------- the world ----------
 
 type world struct {
-	p        wParams
-	localN   int    // how often the hook named by p.Local was reached on that side
-	root     string // scratch root of this execution
-	srcRoot  string
-	dstRoot  string
-	tops     []string
-	entries  []treeEntry
-	keys     *vs.Pipe   // user typing
-	term     *vs.Sink   // local terminal
-	c2s, s2c []*vs.Pipe // wires, index 0 next to the client
-	filter   *TrzszFilter
-	relays   []*TrzszRelay
-	stdout   *os.File // what the server's process prints to its stdout outside the transfer writer
+	p              wParams
+	localN         int    // how often the hook named by p.Local was reached on that side
+	pendingChoices int    // Ctrl-C typed, menu not yet answered
+	root           string // scratch root of this execution
+	srcRoot        string
+	dstRoot        string
+	tops           []string
+	entries        []treeEntry
+	keys           *vs.Pipe   // user typing
+	term           *vs.Sink   // local terminal
+	c2s, s2c       []*vs.Pipe // wires, index 0 next to the client
+	filter         *TrzszFilter
+	relays         []*TrzszRelay
+	stdout         *os.File // what the server's process prints to its stdout outside the transfer writer
 
 	srvTransfer                *trzszTransfer
 	srvStarted                 bool
@@ -644,6 +658,9 @@ func buildWorld(p wParams) *world {
 	w.dstRoot = filepath.Join(w.root, "dst")
 	if p.DstRoot != "" {
 		w.dstRoot = p.DstRoot
+	}
+	if p.DstNested {
+		w.dstRoot = filepath.Join(w.root, "nest", "2024", "incoming")
 	}
 	must(os.MkdirAll(w.dstRoot, 0o755))
 	w.srcRoot, w.entries, w.tops = sharedTree(p.Tree)
@@ -1159,6 +1176,7 @@ func (w *world) nextTransfer(st wParams, k int) {
 	base.Dir, base.Tree, base.Directory, base.Overwrite, base.Kind = st.Dir, st.Tree, st.Directory, st.Overwrite, st.Kind
 	base.Local, base.Stop, base.Pauses, base.DstPre, base.Then = st.Local, st.Stop, nil, "", nil
 	base.ServerNoListen = st.ServerNoListen
+	base.Stops = st.Stops
 	if base.Stop != nil {
 		cp := *base.Stop
 		cp.Step += vs.StepNow() // relative to the beginning of this transfer
@@ -1199,20 +1217,73 @@ func (w *world) installEvents() {
 		f    func()
 	}
 	var evs []ev
-	if st := w.p.Stop; st != nil {
-		evs = append(evs, ev{st.Step, func() {
-			w.stopAt = vs.Elapsed()
+	var stops []*wStop
+	if w.p.Stop != nil {
+		stops = append(stops, w.p.Stop)
+	}
+	for i := range w.p.Stops {
+		stops = append(stops, &w.p.Stops[i])
+	}
+	for _, st := range stops {
+		st := st
+		pressed := new(bool)
+		if st.Via == "keys" && st.Side != "server" {
+			// the user: answers the menu some time after pressing Ctrl-C, one key per read of the input pump
+			vs.GoDaemon("user-choice", func() {
+				vs.WaitUntil("user.ctrlc", func() bool { return *pressed })
+				ms := st.ChoiceMs
+				if ms == 0 {
+					ms = 300
+				}
+				vs.Sleep(time.Duration(ms) * time.Millisecond)
+				w.stopAt = vs.Elapsed()
+				vs.Peek(func() {
+					if t := w.filter.transfer.Load(); t != nil && !st.Continue {
+						w.stopHit = true
+						w.stopTransfer = t
+					}
+				})
+				keys := []string{"\r"}
+				if st.Continue {
+					keys = []string{"j", "j", "\r"}
+				} else if st.Delete {
+					keys = []string{"j", "\r"}
+				}
+				for _, k := range keys {
+					w.keys.Write([]byte(k))
+					vs.Sleep(20 * time.Millisecond)
+				}
+				w.pendingChoices--
+			})
+		}
+		fire := func() {
 			if st.Side == "server" {
+				w.stopAt = vs.Elapsed()
 				w.stopHit = !w.srvDone
 				w.srvTransfer.stopTransferringFiles(false) // handleServerSignal
 				return
 			}
+			if st.Via == "keys" {
+				if w.filter.transfer.Load() == nil {
+					return // no transfer on the screen: nothing the user would interrupt
+				}
+				w.keys.Write([]byte{0x03})
+				w.pendingChoices++
+				*pressed = true
+				return
+			}
+			w.stopAt = vs.Elapsed()
 			if t := w.filter.transfer.Load(); t != nil {
 				w.stopHit = true
 				w.stopTransfer = t
 			}
 			w.filter.StopTransferringFiles(st.Delete)
-		}})
+		}
+		if st.AtMs > 0 {
+			vs.AddTimer(time.Duration(st.AtMs)*time.Millisecond, func() { vs.Peek(fire) }) // (atomically, as an injected event)
+		} else {
+			evs = append(evs, ev{st.Step, fire})
+		}
 	}
 	for i := range w.p.Pauses {
 		pa := w.p.Pauses[i]
@@ -1241,7 +1312,11 @@ func (w *world) installEvents() {
 				})
 			})
 		}
-		evs = append(evs, ev{pa.Step, func() { begin(true) }})
+		if pa.AtMs > 0 {
+			vs.AddTimer(time.Duration(pa.AtMs)*time.Millisecond, func() { vs.Peek(func() { begin(true) }) })
+		} else {
+			evs = append(evs, ev{pa.Step, func() { begin(true) }})
+		}
 	}
 	sort.SliceStable(evs, func(i, j int) bool { return evs[i].step < evs[j].step })
 	for _, e := range evs {
@@ -1272,6 +1347,11 @@ type pauseRec struct {
 func (w *world) probe() string {
 	n := len(w.c2s) - 1
 	w.probeN++
+	if w.pendingChoices > 0 {
+		// the stop/continue menu is still on the screen: the user answers it first
+		vs.WaitUntil("probe.menu", func() bool { return w.pendingChoices == 0 })
+		vs.WaitSettled(func() bool { return false }, 0)
+	}
 	// near-misses of everything the filter looks for ride along with the probe
 	out := fmt.Sprintf("probe-out-%d ::TRZSZ:TRANSFER:X:1.1.8:77 **\x18B0 \x1b]52;x; <ENABLE_TRZSZ_TRACE_LOG $ \r\n", w.probeN)
 	in := fmt.Sprintf("probe-in-%d /no/such ", w.probeN)
